@@ -50,7 +50,9 @@ var strPool = []hx.Sexp{cvStr(""), cvStr("1"), cvStr("abc"), cvStr("RED"), cvStr
 	// what Go's UnmarshalText takes beyond RFC 3339 proper (one-digit hour, comma, zone 24:00) …
 	cvStr("2020-01-02T3:04:05Z"), cvStr("2020-01-02T03:04:05,25Z"), cvStr("2020-02-29T23:59:59.999999999+24:00"),
 	// … and near misses it refuses
-	cvStr("2021-02-29T00:00:00Z"), cvStr("2020-01-02t03:04:05Z"), cvStr("2020-01-02T03:04:60Z"), cvStr("2020-01-02T03:04:05+25:00")}
+	cvStr("2021-02-29T00:00:00Z"), cvStr("2020-01-02t03:04:05Z"), cvStr("2020-01-02T03:04:60Z"), cvStr("2020-01-02T03:04:05+25:00"),
+	// characters a URL query string escapes ("+", "%XX"): must arrive as written
+	cvStr("a+b %41%2B&c=d")}
 
 // thirteen: the integer the symbolic hook rejects.
 var thirteen = cvIntS("13")
@@ -651,6 +653,7 @@ type Group struct {
 	Dflt   string `json:"default"`       // none | (some goval)
 	V      string `json:"value"`         // cv sexp | omitted
 	Extra  bool   `json:"extra_argument,omitempty"`
+	Routes bool   `json:"all_routes,omitempty"`      // every spelling also against Clone() and through apifu.API
 	ImplA  string `json:"impl_a_arg_defs,omitempty"` // polymorphic site: the implementers' definitions
 	ImplB  string `json:"impl_b_arg_defs,omitempty"`
 	Via    string `json:"via,omitempty"`
